@@ -57,6 +57,177 @@ Definition opt_pair (l : list Z) : option (Z * Z) :=
 Definition opt_fail (l d : list Z) : option (Z * Z * bytes) :=
   match l with 1 :: w :: c :: _ => Some (w, c, d) | _ => None end.
 
+
+(* ================= histories and re-inspection (ops 718, 760-766) ================= *)
+(* inside rows the error class is written the way the harness compares classes: the too-short and
+   Unicode refinements of ValueError as ValueError *)
+Definition canon_err (e : err) : Z :=
+  let c := err_code e in if (c =? 2) || (c =? 3) then 1 else c.
+Definition err_row (e : err) : list Z := [1; canon_err e].
+Definition res_row (r : res bytes) : list Z :=
+  match r with Ok b => 0 :: b | Err e => err_row e end.
+
+(* --- RequestId --- *)
+Definition rq_op_of (l : list Z) : rq_op :=
+  match l with
+  | 0 :: v :: _ => RqVer v | 1 :: v :: _ => RqPtype v | 2 :: v :: _ => RqShf v
+  | 3 :: v :: _ => RqApid v | 4 :: v :: _ => RqFlags v | 5 :: v :: _ => RqCount v
+  | 6 :: _ => RqPack | 8 :: _ => RqEqFresh
+  | _ => RqObserve
+  end.
+Definition rq_row (r : reqid) (o : rq_op) : list Z :=
+  match o with
+  | RqPack => res_row (reqid_pack r)
+  | RqEqFresh => match reqid_eq_fresh r with
+                 | Ok (e1, e2, e3, e4) => [0; b2z e1; b2z e2; b2z e3; b2z e4]
+                 | Err e => err_row e
+                 end
+  | _ => 0 :: reqid_fields r ++ [reqid_as_u32 r; reqid_hash r]
+  end.
+Fixpoint run_rq_history (r : reqid) (ops : args) : args :=
+  match ops with
+  | [] => []
+  | o :: t => let r' := reqid_apply r (rq_op_of o) in rq_row r' (rq_op_of o) :: run_rq_history r' t
+  end.
+(* construction path: 0 constructor, 1 unpack(pack() + one octet), 2 from_sp_header, 3 empty() *)
+Definition rq_build (kind : Z) (l : list Z) : res reqid :=
+  if kind =? 1 then do r <- reqid_of_args l; do b <- reqid_pack r; reqid_unpack (b ++ [165])
+  else if kind =? 2 then
+    do h <- sph_new (nth 1 l 0) (nth 3 l 0) (nth 5 l 0) 0 (nth 2 l 0) (nth 4 l 0) (nth 0 l 0);
+    Ok (reqid_from_sph h)
+  else if kind =? 3 then Ok reqid_empty
+  else reqid_of_args l.
+
+(* --- PacketFieldEnum: [kind; pfc; val]; kind 0 PacketFieldEnum, 1 PacketFieldU8/U16/U32,
+   2 with_byte_size(pfc // 8), 3 unpack(pack() + one octet) --- *)
+Definition pfe_build (l : list Z) : res pfe :=
+  let kind := nth 0 l 0 in let pfc := nth 1 l 0 in let val := nth 2 l 0 in
+  if kind =? 2 then pfe_with_byte_size (pfc / 8) val
+  else if kind =? 3 then do f <- pfe_new pfc val; do b <- pfe_pack f; pfe_unpack (b ++ [7]) pfc
+  else pfe_new pfc val.
+Definition pfe_op_of (l : list Z) : pfe_op :=
+  match l with
+  | 0 :: v :: _ => PfVal v | 1 :: v :: _ => PfPfc v
+  | 2 :: _ => PfPack | 3 :: _ => PfLen | 5 :: _ => PfEqFresh
+  | _ => PfObserve
+  end.
+Definition pfe_row (f : pfe) (o : pfe_op) : list Z :=
+  match o with
+  | PfPack => res_row (pfe_pack f)
+  | PfLen => match pfe_len f with Ok n => [0; n] | Err e => err_row e end
+  | PfEqFresh => match pfe_eq_fresh f with
+                 | Ok (e1, e2) => [0; b2z e1; b2z e2]
+                 | Err e => err_row e
+                 end
+  | _ => [0; pfe_pfc f; pfe_val f]
+  end.
+Fixpoint run_pfe_history (f : pfe) (ops : args) : args :=
+  match ops with
+  | [] => []
+  | o :: t => let f' := pfe_apply f (pfe_op_of o) in pfe_row f' (pfe_op_of o) :: run_pfe_history f' t
+  end.
+
+(* --- VerificationParams --- *)
+Definition vp_op_of (l : list Z) : res vp_op :=
+  match l with
+  | 0 :: r => do q <- reqid_of_args r; Ok (VpSetReq q)
+  | 1 :: r => do s <- opt_pfe_of r; Ok (VpSetStep s)
+  | 2 :: has :: pfc :: val :: d => do f <- opt_fn_of [has; pfc; val] d; Ok (VpSetFn f)
+  | 3 :: v :: _ => Ok (VpStepVal v)
+  | 4 :: d => Ok (VpFnData d)
+  | 5 :: v :: _ => Ok (VpFnCodeVal v)
+  | 6 :: _ => Ok VpPack
+  | 7 :: _ => Ok VpLen
+  | 8 :: k :: _ => Ok (VpVerify k)
+  | _ => Ok VpObserve
+  end.
+Definition vp_rows (v : vparams) (o : vp_op) : args :=
+  match o with
+  | VpPack => [res_row (vp_pack v)]
+  | VpLen => [match vp_len v with Ok n => [0; n] | Err e => err_row e end]
+  | VpVerify k => [match vp_verify v k with Ok _ => [0] | Err e => err_row e end]
+  | _ => vp_fields v
+  end.
+Fixpoint run_vp_history (v : vparams) (ops : args) : args :=
+  match ops with
+  | [] => []
+  | o :: t =>
+      match (do op <- vp_op_of o; do v' <- vp_apply v op; Ok (v', op)) with
+      | Err e => err_row e :: run_vp_history v t
+      | Ok (v', op) => vp_rows v' op ++ run_vp_history v' t
+      end
+  end.
+
+(* --- Service1Tm --- *)
+Definition s1_op_of (l : list Z) : res s1_op :=
+  match l with
+  | 0 :: _ => Ok S1Pack
+  | 2 :: _ => Ok S1ErrorCode
+  | 3 :: r => do q <- reqid_of_args r; Ok (S1SetReq q)
+  | 4 :: v :: _ => Ok (S1SetSeqCount v)
+  | 5 :: v :: _ => Ok (S1SetApid v)
+  | 6 :: ws :: we :: _ => Ok (S1Redecode ws we)
+  | 7 :: ws :: we :: _ => Ok (S1Roundtrip ws we)
+  | _ => Ok S1Observe
+  end.
+Definition s1_params (s : srv1) (ws we : Z) : unpack_params :=
+  {| up_ts_len := len (tms_stamp (tm_sec (s1_tm s))); up_step := ws; up_err := we |}.
+Fixpoint run_s1_history (s : srv1) (ops : args) : args :=
+  match ops with
+  | [] => []
+  | o :: t =>
+      match s1_op_of o with
+      | Err e => err_row e :: run_s1_history s t
+      | Ok S1Pack =>
+          match srv1_pack s with
+          | Err e => err_row e :: run_s1_history s t
+          | Ok (raw, s') => (0 :: raw) :: run_s1_history s' t
+          end
+      | Ok S1ErrorCode =>
+          (match srv1_error_code s with Ok c => 0 :: of_opt_pfe c | Err e => err_row e end)
+          :: run_s1_history s t
+      | Ok (S1Redecode ws we) =>
+          match srv1_pack s with
+          | Err e => err_row e :: run_s1_history s t
+          | Ok (raw, s') =>
+              match srv1_unpack (raw ++ [165; 90]) (s1_params s ws we) with
+              | Err e => err_row e :: run_s1_history s' t
+              | Ok u => ([0] :: srv1_fields u) ++ run_s1_history u t
+              end
+          end
+      | Ok (S1Roundtrip ws we) =>
+          match srv1_pack s with
+          | Err e => err_row e :: run_s1_history s t
+          | Ok (raw, s') =>
+              match (do u <- srv1_unpack (raw ++ [165; 90]) (s1_params s ws we);
+                     do e1 <- srv1_eq u s'; do e2 <- srv1_eq s' u; Ok (u, (e1, e2))) with
+              | Err e => err_row e :: run_s1_history s' t
+              | Ok (u, (e1, e2)) => ([0; b2z e1; b2z e2] :: srv1_fields u) ++ run_s1_history s' t
+              end
+          end
+      | Ok op =>
+          match srv1_apply s op with
+          | Err e => err_row e :: run_s1_history s t
+          | Ok s' => ([0] :: srv1_fields s') ++ run_s1_history s' t
+          end
+      end
+  end.
+(* construction path a6 = [kind; ws; we]: 0 constructor (also used for the create_*_tm helpers,
+   which are defined as that constructor call: kind 3), 1 Service1Tm.unpack(pack()), 2 from_tm(PusTm.unpack(pack())) *)
+Definition s1_build (a : args) : res srv1 :=
+  do s <- srv1_of_args a;
+  if (int 6 0 a =? 0) || (int 6 0 a =? 3) then Ok s else
+  do p <- srv1_pack s;
+  srv1_unpack (fst p) {| up_ts_len := len (lst 1 a); up_step := int 6 1 a; up_err := int 6 2 a |}.
+
+(* the common "pack, decode with matching widths, compare both ways, re-pack" observation *)
+Definition s1_roundtrip (s : srv1) (tl ws we : Z) : res args :=
+  do p <- srv1_pack s;
+  do u <- srv1_unpack (fst p) {| up_ts_len := tl; up_step := ws; up_err := we |};
+  do e1 <- srv1_eq u (snd p); do e2 <- srv1_eq (snd p) u;
+  do q <- srv1_pack u;
+  Ok ([[b2z (e1 && e2)]; fst q] ++ srv1_fields u).
+
 Definition run_srv1 (op : Z) (a : args) : args :=
   match op with
   (* ---- RequestId ---- *)
@@ -142,6 +313,34 @@ Definition run_srv1 (op : Z) (a : args) : args :=
   (* == of two independently built reports: a0..a5 and a6..a11 *)
   | 749 => ret (fun b => [[b2z b]])
              (do x <- srv1_of_args a; do y <- srv1_of_args (skipn 6 a); srv1_eq x y)
+  (* == between fields built in different ways, both directions *)
+  | 718 => ret (fun r => [[b2z (pfe_eqb (fst r) (snd r)); b2z (pfe_eqb (snd r) (fst r))]])
+             (do x <- pfe_build (lst 0 a); do y <- pfe_build (lst 1 a); Ok (x, y))
+  | 760 => ret (fun r => run_rq_history r (skipn 2 a)) (rq_build (int 1 0 a) (lst 0 a))
+  | 761 => ret (fun f => run_pfe_history f (skipn 1 a)) (pfe_build (lst 0 a))
+  | 762 => ret (fun v => run_vp_history v (skipn 4 a) ++ [[1]]) (vp_of_args 0 a)
+  | 763 => ret (fun s => run_s1_history s (skipn 7 a) ++ [[1]]) (s1_build a)
+  (* two reports decoded in a row (a0, a1 and a2, a3), both inspected afterwards *)
+  | 764 => ret (fun x => x)
+             (do u <- srv1_unpack (lst 0 a) (params_of (lst 1 a));
+              let tail :=
+                match (do w <- srv1_unpack (lst 2 a) (params_of (lst 3 a));
+                       do e1 <- srv1_eq u w; do e2 <- srv1_eq w u; Ok (w, (e1, e2))) with
+                | Ok (w, (e1, e2)) => ([0; b2z e1; b2z e2] :: srv1_fields w)
+                | Err e => [err_row e]
+                end in
+              Ok (srv1_fields u ++ [match srv1_error_code u with Ok c => 0 :: of_opt_pfe c | Err e => err_row e end]
+                  ++ tail ++ [[1]]))
+  (* 742 with bytearray arguments that are overwritten after the calls; last row: caller's objects unchanged *)
+  | 765 => ret (fun x => x ++ [[1]])
+             (do s <- srv1_of_args a; s1_roundtrip s (len (lst 1 a)) (int 6 0 a) (int 6 1 a))
+  (* create_*_tm helper, then the same observation; a7 = [ws; we] *)
+  | 766 => ret (fun x => x ++ [[1]])
+             (do t <- tc_of_args [lst 1 a; lst 2 a];
+              do st <- opt_pfe_of (lst 4 a);
+              do f <- opt_fn_of (lst 5 a) (lst 6 a);
+              do s <- srv1_create (int 0 0 a) (int 0 1 a) (tc_sph t) st f (lst 3 a);
+              s1_roundtrip s (len (lst 3 a)) (int 7 0 a) (int 7 1 a))
   (* ---- Spec side (independent oracle) ---- *)
   | 750 => let h := sph_of_reqid_fields (lst 0 a) in [[0]; reqid_layout h; [reqid_u32 h]]
   | 751 => [[0]; srv1_src_layout (sph_of_reqid_fields (lst 0 a)) (opt_pair (lst 1 a))
